@@ -26,11 +26,19 @@ type ShiftCase struct {
 	M           int  `json:"segments"`
 	Video2      bool `json:"second_video"`
 	Streams     bool `json:"streams_urls"`
+	// TimeOff > 0 (video ticks, a multiple of 25): all decode times lie that far after the duration grid and the uploaded numbers
+	// are the grid numbers rounded up: decode time = (number + K - 1) * duration + TimeOff. The receiver then shifts the times onto
+	// the grid (by duration - TimeOff); with K = 0 the numbers stay as uploaded and only the times move.
+	TimeOff uint32 `json:"time_off_ticks,omitempty"`
 }
 
 func genShift(t *rapid.T) ShiftCase {
 	c := ShiftCase{DurTicks: rapid.SampledFrom([]uint32{192000, 100000}).Draw(t, "dur"), Base: uint32(rapid.SampledFrom([]int{5, 100, 1000000}).Draw(t, "base")),
 		K: uint32(rapid.SampledFrom([]int{1, 3, 1000}).Draw(t, "k")), M: rapid.IntRange(5, 10).Draw(t, "M"), Video2: rapid.Bool().Draw(t, "v2"), Streams: rapid.Bool().Draw(t, "streams")}
+	if rapid.IntRange(0, 2).Draw(t, "time-shift") == 0 {
+		c.TimeOff = uint32(rapid.SampledFrom([]int{25, 1000, int(c.DurTicks) / 4, int(c.DurTicks) / 2, int(c.DurTicks) - 25}).Draw(t, "time-off")) / 25 * 25
+		c.K = uint32(rapid.SampledFrom([]int{0, 0, 1, 3}).Draw(t, "k-with-time-shift"))
+	}
 	dur48 := int(uint64(c.DurTicks) * 48000 / 50000)
 	switch rapid.IntRange(0, 3).Draw(t, "offkind") {
 	case 0:
@@ -82,6 +90,9 @@ func checkShift(c ShiftCase, storage string) (*hx.Violation, int) {
 			seq := c.Base + uint32(k)
 			d := durFor(tr.Kind, c.DurTicks)
 			dts := int64(uint64(seq+c.K) * uint64(d))
+			if c.TimeOff > 0 {
+				dts = int64(uint64(seq+c.K-1)*uint64(d)) + int64(uint64(c.TimeOff)*uint64(rx.Kinds[tr.Kind].Timescale)/50000)
+			}
 			if tr.Kind == "audio" {
 				dts += int64(c.AudioOffset)
 			}
@@ -135,8 +146,20 @@ func checkShift(c ShiftCase, storage string) (*hx.Violation, int) {
 				if sf.tfdt != d.T || sf.dur != d.D {
 					return hx.V("listed-differs-from-stored", "renumbered channel: %s number %d listed (t=%d,d=%d), stored (t=%d,d=%d)", rp.ID, d.Nr, d.T, d.D, sf.tfdt, sf.dur), 0
 				}
-				if u, ok := sent[rp.ID][d.T]; !ok || u.dur != d.D {
-					return hx.V("listed-not-uploaded", "renumbered channel: %s number %d listed (t=%d,d=%d): no segment with that decode time and duration was uploaded", rp.ID, d.Nr, d.T, d.D), 0
+				// (on a time-shifted channel the listed time is the uploaded one moved onto the grid; the conversion through the
+				// master timescale may cost a tick)
+				var shift uint64
+				if c.TimeOff > 0 {
+					shift = uint64(c.DurTicks-c.TimeOff) * uint64(tk.Timescale) / 50000
+				}
+				found := false
+				for ut, u := range sent[rp.ID] {
+					if df := int64(d.T) - int64(shift) - int64(ut); df >= -2 && df <= 2 && u.dur == d.D {
+						found = true
+					}
+				}
+				if !found {
+					return hx.V("listed-not-uploaded", "renumbered channel: %s number %d listed (t=%d,d=%d): no segment with that decode time (less the channel's time shift %d) and duration was uploaded", rp.ID, d.Nr, d.T, d.D, shift), 0
 				}
 			}
 		}
@@ -193,6 +216,12 @@ func TestC17Renumbered(t *testing.T) {
 			cls = append(cls, "renumbered:audio-early")
 		case c.AudioOffset > 0:
 			cls = append(cls, "renumbered:audio-late")
+		}
+		if c.TimeOff > 0 {
+			cls = append(cls, "renumbered:time-shifted")
+			if c.K == 0 {
+				cls = append(cls, "renumbered:time-shift-only")
+			}
 		}
 		if n >= 2 {
 			run.NonTrivial(c)
